@@ -88,7 +88,7 @@ def interesting(prop, h):
     if prop == "C11":   # a derive or execute after which older streams are re-inspected
         return len(h) >= 3
     if prop == "C12":
-        return "ValueStart" in acts
+        return "ValueStart" in acts or "ValueSync" in acts
     if prop == "C16":
         return "QMetaData" in acts or "QMetaData2" in acts
     return True
@@ -153,6 +153,26 @@ def run(prop, tier):
                     rep.reject(key, cl, replay)
             else:
                 other[owner + ":" + cl] = other.get(owner + ":" + cl, 0) + 1
+    if prop == "C11":
+        # wild traces: the streams the repository's own tests build, re-inspected after every operation
+        import wild
+        wrecs = []
+        for r in wild.records(prop):
+            if r["pass"] == "imm" and r["views0"]:
+                wrecs.append({"id": len(wrecs), "pass": "imm", "views0": r["views0"], "views1": r["views1"],
+                              "types0": r["types0"], "types1": r["types1"], "op": r["op"], "test": r.get("test", "")})
+        wv, wst = common.validate(prop, "wild", "TracePass", [{k: v for k, v in w.items() if k != "test"} for w in wrecs])
+        rep.add_tlc(wst)
+        nbad = 0
+        for wid, v in sorted(wv.items()):
+            if v["v"] == "REJECT":
+                nbad += 1
+                w = wrecs[wid]
+                rep.reject(("wild", wid), "Imm", {"property": prop, "kind": "wild trace", "test": w["test"], "op": w["op"],
+                                                  "stream": v["d"], "created_as": codec.src(w["views0"][v["d"] - 1]),
+                                                  "now": codec.src(w["views1"][v["d"] - 1])})
+        fam["wild (repository tests under the recorder)"] = {"records": len(wrecs), "rejected": nbad,
+                                                             "suite": wild.suite_summary()}
     rep.nontrivial = len(hs) - len(bad_hist)
     for h in hs[:3] + hs[-3:]:
         rep.sample([{k: (codec.src(v) if k == "t" and v["k"] != "absent" else v) for k, v in a.items()
